@@ -264,8 +264,15 @@ func signedMessageCoverage(e *Env) {
 		gate.CallInstr("res.headers", "signedexchange.encodeHeaders", "*", "param:e.ResponseHeaders"),
 		gate.CallOK("res.map", "(*cbor.Encoder).EncodeMap", "param:enc", "call:signedexchange.encodeHeaders(*,param:e.ResponseHeaders)"),
 	)
-	// encodeHeaders: every header of the map becomes an entry of the returned slice
-	forAllIterations(e, "COVER", e.fn("signedexchange.encodeHeaders"), "param:headers", noCfg,
+	headerEntriesComplete(e, "COVER")
+	e.R.Floor("COVER", 40)
+}
+
+// headerEntriesComplete (shared by C01 and C02): every header of the map
+// becomes an entry (lower-cased name, all values of that name joined) of the
+// slice encodeHeaders returns.
+func headerEntriesComplete(e *Env, rule string) {
+	forAllIterations(e, rule, e.fn("signedexchange.encodeHeaders"), "param:headers", noCfg,
 		gate.Gate{Key: "hdr.each", Desc: "an entry encoding name and value is appended for every header",
 			Instr: func(in ssa.Instruction) bool {
 				c, ok := in.(*ssa.Call)
@@ -275,7 +282,6 @@ func signedMessageCoverage(e *Env) {
 				// the appended element is GenerateMapEntry(closure using name and value)
 				return strings.Contains(prov.Of(c.Call.Args[1]), "") && appendCarriesHeaderEntry(c)
 			}})
-	e.R.Floor("COVER", 40)
 }
 
 // appendCarriesHeaderEntry: the variadic slice appended holds a
